@@ -79,6 +79,26 @@ VCS_SUBCOMMANDS_BY_NAME = {
 Env = typ.Dict[str, str]
 
 
+def _unquote_path(filepath: str) -> str:
+    r"""Undo the C-style quoting that git applies to unusual paths.
+
+    >>> _unquote_path(' "release notes.txt"')
+    'release notes.txt'
+    >>> _unquote_path('"gr\\303\\274n.txt"') == 'gr\u00fcn.txt'
+    True
+    >>> _unquote_path('a.txt')
+    'a.txt'
+    """
+    filepath = filepath.strip()
+    if len(filepath) >= 2 and filepath.startswith('"') and filepath.endswith('"'):
+        try:
+            raw = filepath[1:-1].encode("ascii").decode("unicode_escape")
+            return raw.encode("latin-1").decode("utf-8")
+        except UnicodeError:
+            return filepath
+    return filepath
+
+
 class VCSAPI:
     """Absraction for git and mercurial."""
 
@@ -155,7 +175,7 @@ class VCSAPI:
             #   hg lines are "X <path>". Renames are "XY <orig> -> <path>".
             status, filepaths = line[:2].strip(), line[2:]
             for filepath in filepaths.split(" -> "):
-                status_items.append((status, filepath))
+                status_items.append((status, _unquote_path(filepath)))
 
         return [
             filepath.strip()
